@@ -125,8 +125,12 @@ pub fn run(rng: &mut Rng, tier: &str, out: &str) -> Report {
     let mut cw = CaseWriter::new(out, "hist", HEADER, 1);
     let thorough = tier == "thorough";
     let n_univ = if thorough { 400 } else { 48 };
-    let cfg = GenCfg::default();
     for ui in 0..n_univ {
+        // every third universe uses the conflict-focused profile
+        let cfg = GenCfg { focus: ui % 3 == 2, ..GenCfg::default() };
+        if cfg.focus {
+            rep.count("focused_universes");
+        }
         let nrep = rng.range(2, 4) as usize;
         let steps = if thorough { rng.range(20, 160) } else { rng.range(15, 70) } as usize;
         let mut u = build_universe(rng, nrep, steps, &cfg);
@@ -138,6 +142,7 @@ pub fn run(rng: &mut Rng, tier: &str, out: &str) -> Report {
         let idx_of: HashMap<ChangeHash, usize> = u.changes.iter().enumerate().map(|(i, c)| (c.hash(), i)).collect();
         let mut group_defs = vec![format!("Definition u : list change := {}.", coq_universe(&u.changes))];
         let mut group_cases: Vec<(String, serde_json::Value)> = vec![];
+        let mut hist_cases: Vec<(String, serde_json::Value)> = vec![];
 
         // ---------- delivery schedules ----------
         let mut finals: Vec<(String, String, Vec<ChangeHash>)> = vec![]; // (path, rendering, heads)
@@ -294,6 +299,18 @@ pub fn run(rng: &mut Rng, tier: &str, out: &str) -> Report {
                 if hs.iter().any(|h| !idx_of.contains_key(h)) {
                     continue;
                 }
+                // objects that exist at these heads: created by an ancestor (computed here from deps)
+                let mut anc: BTreeSet<usize> = BTreeSet::new();
+                let mut stack: Vec<usize> = hs.iter().map(|h| idx_of[h]).collect();
+                while let Some(i) = stack.pop() {
+                    if anc.insert(i) {
+                        for d in u.changes[i].deps() {
+                            stack.push(idx_of[d]);
+                        }
+                    }
+                }
+                let anc_changes: Vec<Change> = anc.iter().map(|i| u.changes[*i].clone()).collect();
+                let cands = object_ids(&anc_changes);
                 let at = observe(&all, &cands, Some(&hs));
                 let forked = guard(|| all.fork_at(&hs));
                 match (&at, forked) {
@@ -307,8 +324,8 @@ pub fn run(rng: &mut Rng, tier: &str, out: &str) -> Report {
                             rep.fail(&["C07"], "hist|fork-heads", "fork_at(heads).get_heads() != heads",
                                 json!({"universe": ui, "log": u.log}));
                         }
-                        group_cases.push((
-                            format!("chk_obs_at u {} {}", coq_hashes(&hs), o),
+                        hist_cases.push((
+                            format!("wf_hist_b u && chk_obs_at u {} {}", coq_hashes(&hs), o),
                             json!({"kind": "obs_at", "props": ["C07"], "universe": ui, "log": u.log, "heads": hs.iter().map(|h| hex(&h.0)).collect::<Vec<_>>()}),
                         ));
                         rep.count("historical_reads");
@@ -351,6 +368,9 @@ pub fn run(rng: &mut Rng, tier: &str, out: &str) -> Report {
             rep.sample(json!({"replicas": nrep, "changes": n, "ops": total_ops, "log": u.log.iter().take(25).collect::<Vec<_>>()}));
         }
         cw.push_group(&group_defs, group_cases);
+        // historical reads use the checker [wf_hist_b] that lives beside the C07 proofs
+        let hist_defs = vec!["From AM Require Import Crdt.ClockProofs.".to_string(), group_defs[0].clone()];
+        cw.push_group(&hist_defs, hist_cases);
         group_defs.clear();
     }
     rep.model_cases = cw.total as u64;
